@@ -137,7 +137,7 @@ static std::vector<Instance> mk(const std::string &tier) {
 	struct Cfg { int U, copies, M, fresh; };
 	// fresh=1: a removed node object is re-created before re-use; fresh=0: re-used with stale colour/aggregate
 	std::vector<Cfg> cfgs = th ? std::vector<Cfg>{{2, 2, 6, 1}, {3, 1, 7, 1}, {3, 2, 5, 1}, {4, 1, 6, 1}, {5, 1, 4, 1}, {1, 3, 7, 1}, {2, 1, 6, 0}, {1, 3, 5, 0}, {1, 2, 4, 0}, {3, 1, 2, 0}}
-	                           : std::vector<Cfg>{{2, 2, 5, 1}, {3, 1, 6, 1}, {4, 1, 4, 1}, {1, 3, 6, 1}, {2, 1, 5, 0}, {1, 2, 4, 0}};
+	                           : std::vector<Cfg>{{2, 2, 5, 1}, {3, 1, 7, 1}, {4, 1, 4, 1}, {1, 3, 6, 1}, {2, 1, 5, 0}, {1, 2, 4, 0}};   // (U3 with 7 stored: the smallest trees in which an insert rotates three levels below the root)
 	for(auto c : cfgs) v.push_back(mkinst(c.U, c.copies, c.M, c.fresh));
 	v.push_back(bfs_instance<IvHarnessT<MovP>>("iv-movable-endpoint-U3-c1-M" + std::to_string(th ? 5 : 4), BfsOptions{}, 3, 1, th ? 5 : 4, 1));
 	return v;
